@@ -212,6 +212,9 @@ func (c *remoteCache) ReadCh(ctx context.Context, name string, opts *Opts, paths
 				if !ok {
 					return
 				}
+				if !belowAnyPath(readResponse.GetPath(), paths) {
+					continue
+				}
 				rUpd := &Update{
 					path:     readResponse.GetPath(),
 					value:    readResponse.GetValue().GetValue(),
